@@ -556,6 +556,9 @@ def run_bulk(case, out):
             cr = r.column_reader("tag")
             for dn in r.all_doc_ids():
                 sf = r.stored_fields(dn)
+                if sf.get("key") not in exp:
+                    out.fail("c08.bulk_stored_value", {"docnum": dn, "stored_fields_keys": sorted(sf)[:5], "key": repr(sf.get("key"))[:60]})
+                    break
                 body, tag = exp[sf["key"]]
                 if sf.get("body") != body:
                     out.fail("c08.bulk_stored_value", {"doc": sf["key"], "len_got": len(sf.get("body") or ""), "len_expected": len(body)})
